@@ -187,16 +187,18 @@ func (pq *KeyGroupPriorityQueue) loadFromDB() {
 	prefix[2] = 0x01 // Schema byte
 
 	var err error
+	allLoaded := true
 	for entry := range pq.db.ScanPrefix(prefix, &err) {
-		pq.cache.Push(entry.Key())
-		if pq.cache.IsFull() {
+		if pq.cache.IsFull() && !pq.cache.IsEmpty() {
+			allLoaded = false // this entry and the ones after it stay only in the DB
 			break
 		}
+		pq.cache.Push(entry.Key())
 	}
 	if err != nil {
 		panic(err)
 	}
-	pq.allDataInCache = true
+	pq.allDataInCache = allLoaded
 }
 
 var _ ds.QueuePartition[[]byte] = &KeyGroupPriorityQueue{}
